@@ -51,7 +51,7 @@ for p in "$@"; do
   # a seed marked "thorough_only" needs more than the quick tier reaches (e.g. a four-level tree):
   # it is replayed against the thorough tier for a minute and a half
   tier="--tier quick"; if grep -q '"thorough_only"' "$D/meta.json"; then tier="--tier thorough --seconds 90"; fi
-  out=$(cd "$ROOT" && VERIF_REPO="$W/repo" ./verif.sh check "$p" $tier 2>&1); code=$?
+  out=$(cd "$ROOT" && VERIF_REPLAY_DIR="$W/replays" VERIF_REPO="$W/repo" ./verif.sh check "$p" $tier 2>&1); code=$?
   cp "$W/evidence.$p.json" "$ROOT/evidence/$p.json" 2>/dev/null
   echo "check $p: exit=$code"
   echo "$out" | grep -E "^VIOLATION|signature:|KNOWN-FINDING" | cut -c1-220 | head -6
